@@ -547,9 +547,13 @@ fn run_files(tasks: &[Vec<(usize, u8)>], mods: &[SimpleModule], scripts: &[(u32,
             })
             .collect();
         let sched = Sched { futs, wakes, wakers, root, picks: picks.to_vec(), si: 0 };
-        let st = match tokio::time::timeout(std::time::Duration::from_secs(8), sched).await {
+        let limit = if LOST_SEEN.load(Ordering::SeqCst) { std::time::Duration::from_millis(500) } else { std::time::Duration::from_secs(8) };
+        let st = match tokio::time::timeout(limit, sched).await {
             Ok(()) => "OK",
-            Err(_) => "LOST",
+            Err(_) => {
+                LOST_SEEN.store(true, Ordering::SeqCst);
+                "LOST"
+            }
         };
         server.abort();
         st
